@@ -562,4 +562,42 @@ theorem framesOf_getElem_series (dfs : List TS) (n : Nat) (hn : n ≤ 1) (i : Na
   have : ¬ n > 1 := by omega
   simp [framesOf, this]
 
+/-! ### the other spellings of the bound lists -/
+
+/-- the pieces for arbitrary (normalised) bound lists -/
+def piecesG (dfs : List TS) (lbs ubs : List (Option Int)) (n : Nat) (l u : Bool) : List Frame :=
+  ((framesOf dfs n).zip (lbs.zip ubs)).map (cut l u)
+
+theorem stitch_general (dfs : List TS) (lb ub : Option (List Int)) (oc : Option (List Char)) (n : Nat) (l u : Bool)
+    (hb : brackets oc = .ok (l, u)) (dfs' : List TS) (lbs ubs : List (Option Int))
+    (hnorm : normalise dfs lb ub = .ok (dfs', lbs, ubs)) (h1 : lbs.length = dfs'.length) (h2 : ubs.length = dfs'.length) :
+    stitch dfs lb ub oc n = .ok (assemble (piecesG dfs' lbs ubs n l u)) := by
+  simp only [stitch, hnorm, bind, Except.bind, pure, Except.pure]
+  rw [zipper3_eq _ _ _ (by rw [framesOf_length]; exact h1) (by rw [framesOf_length]; exact h2)]
+  simp only [cutAll_eq _ oc l u hb]
+  rfl
+
+theorem piecesG_length (dfs : List TS) (lbs ubs : List (Option Int)) (n : Nat) (l u : Bool)
+    (h1 : lbs.length = dfs.length) (h2 : ubs.length = dfs.length) : (piecesG dfs lbs ubs n l u).length = dfs.length := by
+  simp [piecesG, framesOf_length, h1, h2]
+
+theorem piecesG_getElem (dfs : List TS) (lbs ubs : List (Option Int)) (n : Nat) (l u : Bool)
+    (i : Nat) (hi : i < (piecesG dfs lbs ubs n l u).length) (hf : i < (framesOf dfs n).length)
+    (hl : i < lbs.length) (hu : i < ubs.length) :
+    (piecesG dfs lbs ubs n l u)[i] = ⟨(framesOf dfs n)[i].width,
+      (framesOf dfs n)[i].rows.filter fun r => inWindow l u (optDate lbs[i]) (optDate ubs[i]) r.1⟩ := by
+  simp only [piecesG, List.getElem_map, List.getElem_zip, cut]
+
+theorem normalise_lb (dfs : List TS) (lb : List Int) (h : nonDecreasing lb = true) :
+    normalise dfs (some lb) Option.none = .ok (dfs, lb.map some, (lb.drop 1).map some ++ [Option.none]) := by
+  simp [normalise, h, pure, Except.pure]
+
+theorem normalise_both (dfs : List TS) (lb ub : List Int) (h1 : nonDecreasing lb = true) (h2 : nonDecreasing ub = true) :
+    normalise dfs (some lb) (some ub) = .ok (dfs, lb.map some, ub.map some) := by
+  simp [normalise, h1, h2, pure, Except.pure]
+
+theorem normalise_mixed (dfs : List TS) (lb ub : List Int) (h : nonDecreasing ub ≠ nonDecreasing lb) :
+    normalise dfs (some lb) (some ub) = .error .value := by
+  simp [normalise, h]
+
 end Pyg.Slice
